@@ -200,5 +200,89 @@ impl ValueType {
 //@@ end
 }
 
+pub struct ValueVisitor {}
+impl ValueVisitor {
+//@@ fn file=serde_amqp/src/value/de.rs impl=`impl<'de> de::Visitor<'de> for ValueVisitor` name=visit_bool
+//@@ generics
+//@@ nowhere
+//@@ ret Result<Value, SerError>
+//@@ spec
+    ensures r == Ok::<Value, SerError>(Value::Bool(v)),          // [C03.value.visit-bool] what the decoder hands over as a bool becomes the value-tree variant of that AMQP type, payload unchanged
+//@@ end
+
+//@@ fn file=serde_amqp/src/value/de.rs impl=`impl<'de> de::Visitor<'de> for ValueVisitor` name=visit_i8
+//@@ generics
+//@@ nowhere
+//@@ ret Result<Value, SerError>
+//@@ spec
+    ensures r == Ok::<Value, SerError>(Value::Byte(v)),          // [C03.value.visit-i8] what the decoder hands over as a i8 becomes the value-tree variant of that AMQP type, payload unchanged
+//@@ end
+
+//@@ fn file=serde_amqp/src/value/de.rs impl=`impl<'de> de::Visitor<'de> for ValueVisitor` name=visit_i16
+//@@ generics
+//@@ nowhere
+//@@ ret Result<Value, SerError>
+//@@ spec
+    ensures r == Ok::<Value, SerError>(Value::Short(v)),          // [C03.value.visit-i16] what the decoder hands over as a i16 becomes the value-tree variant of that AMQP type, payload unchanged
+//@@ end
+
+//@@ fn file=serde_amqp/src/value/de.rs impl=`impl<'de> de::Visitor<'de> for ValueVisitor` name=visit_i32
+//@@ generics
+//@@ nowhere
+//@@ ret Result<Value, SerError>
+//@@ spec
+    ensures r == Ok::<Value, SerError>(Value::Int(v)),          // [C03.value.visit-i32] what the decoder hands over as a i32 becomes the value-tree variant of that AMQP type, payload unchanged
+//@@ end
+
+//@@ fn file=serde_amqp/src/value/de.rs impl=`impl<'de> de::Visitor<'de> for ValueVisitor` name=visit_i64
+//@@ generics
+//@@ nowhere
+//@@ ret Result<Value, SerError>
+//@@ spec
+    ensures r == Ok::<Value, SerError>(Value::Long(v)),          // [C03.value.visit-i64] what the decoder hands over as a i64 becomes the value-tree variant of that AMQP type, payload unchanged
+//@@ end
+
+//@@ fn file=serde_amqp/src/value/de.rs impl=`impl<'de> de::Visitor<'de> for ValueVisitor` name=visit_u8
+//@@ generics
+//@@ nowhere
+//@@ ret Result<Value, SerError>
+//@@ spec
+    ensures r == Ok::<Value, SerError>(Value::Ubyte(v)),          // [C03.value.visit-u8] what the decoder hands over as a u8 becomes the value-tree variant of that AMQP type, payload unchanged
+//@@ end
+
+//@@ fn file=serde_amqp/src/value/de.rs impl=`impl<'de> de::Visitor<'de> for ValueVisitor` name=visit_u16
+//@@ generics
+//@@ nowhere
+//@@ ret Result<Value, SerError>
+//@@ spec
+    ensures r == Ok::<Value, SerError>(Value::Ushort(v)),          // [C03.value.visit-u16] what the decoder hands over as a u16 becomes the value-tree variant of that AMQP type, payload unchanged
+//@@ end
+
+//@@ fn file=serde_amqp/src/value/de.rs impl=`impl<'de> de::Visitor<'de> for ValueVisitor` name=visit_u32
+//@@ generics
+//@@ nowhere
+//@@ ret Result<Value, SerError>
+//@@ spec
+    ensures r == Ok::<Value, SerError>(Value::Uint(v)),          // [C03.value.visit-u32] what the decoder hands over as a u32 becomes the value-tree variant of that AMQP type, payload unchanged
+//@@ end
+
+//@@ fn file=serde_amqp/src/value/de.rs impl=`impl<'de> de::Visitor<'de> for ValueVisitor` name=visit_u64
+//@@ generics
+//@@ nowhere
+//@@ ret Result<Value, SerError>
+//@@ spec
+    ensures r == Ok::<Value, SerError>(Value::Ulong(v)),          // [C03.value.visit-u64] what the decoder hands over as a u64 becomes the value-tree variant of that AMQP type, payload unchanged
+//@@ end
+
+//@@ fn file=serde_amqp/src/value/de.rs impl=`impl<'de> de::Visitor<'de> for ValueVisitor` name=visit_char
+//@@ generics
+//@@ nowhere
+//@@ ret Result<Value, SerError>
+//@@ spec
+    ensures r == Ok::<Value, SerError>(Value::Char(v)),          // [C03.value.visit-char] what the decoder hands over as a char becomes the value-tree variant of that AMQP type, payload unchanged
+//@@ end
+
+}
+
 } // verus!
 fn main() {}
